@@ -44,7 +44,11 @@ func scenC05(r *Run, job *Job) {
 		}
 	case "sweep":
 		offset = c05Offsets[t.Draw(len(c05Offsets))]
-		sweepWho = t.Draw(3) // 0: the response, 1: the runtime's re-poll, 2: the last extension's re-poll
+		sweepWho = t.Draw(4) // 0: the response, 1: the runtime's re-poll, 2: the last extension's re-poll, 3: the runtime's first poll (end of init)
+		if sweepWho == 3 && t.Chance(1, 2) {
+			// ... and the dispatch that follows is descheduled for a moment, across the expiry
+			r.AddHold([]string{"HandleInvoke", "setReplyStream", "FastInvoke", "rapidcore.(*Server).Invoke"}[t.Draw(4)], 1+t.Draw(3), 1+t.Draw(4))
+		}
 	}
 	switch t.Draw(3) {
 	case 1:
@@ -58,6 +62,7 @@ func scenC05(r *Run, job *Job) {
 	if t.Chance(1, 2) {
 		e.PermNum, e.PermDen = 1, 3
 	}
+	e.HoldAcrossTimers = profile == "sweep" && sweepWho == 3 || profile == "hold" && t.Chance(1, 2)
 	// process reactions
 	rtOnTerm := []string{"", "exit0", "ignore"}[t.Draw(3)]
 	var killLat, maxKillLat time.Duration
@@ -126,6 +131,8 @@ func scenC05(r *Run, job *Job) {
 					b.Script = []Op{{Kind: "next"}, {Kind: "until", D: T + offset}, {Kind: "response"}}
 				case 1:
 					b.Script = []Op{{Kind: "next"}, {Kind: "response"}, {Kind: "until", D: T + offset}, {Kind: "next"}}
+				case 3:
+					b.Script = []Op{{Kind: "untilinv", D: T + offset}, {Kind: "next"}, {Kind: "response"}}
 				}
 			} else if sweepWho == 2 && p.ExtName == firstExt {
 				b.Script = []Op{{Kind: "register"}, {Kind: "extnext"}, {Kind: "untilinv", D: T + offset}, {Kind: "extnext"}}
@@ -200,7 +207,7 @@ func c05Judge(r *Run, w *World, e *Engine, T, offset time.Duration, profile stri
 				} else {
 					r.Probe("sweep-timeout")
 				}
-				if offset < 0 {
+				if offset < 0 && !r.holdEverFired() {
 					r.Probe(fmt.Sprintf("response-within-%s-of-expiry", -offset))
 					r.Check(isResp, "C05.timeout-before-expiry", "everything returned %s before expiry but the outcome was %d %s", -offset, st, summarize(body))
 				}
